@@ -94,6 +94,17 @@ func evalBoolUnder(v ssa.Value, assign map[string]string, cameFrom *ssa.BasicBlo
 				return evalBoolUnder(x.Edges[i], assign, nil, depth+1)
 			}
 		}
+	case *ssa.Extract:
+		// the boolean a predicate of the repository hands back next to other results
+		if c, isCall := x.Tuple.(*ssa.Call); isCall {
+			if g := staticCallee(c); g != nil && inRepo(g) {
+				if rv := calleeResultUnder(g, x.Index, assign, depth+1); rv != nil {
+					if _, isP := rv.(*ssa.Phi); !isP {
+						return evalBoolUnder(rv, assign, nil, depth+1)
+					}
+				}
+			}
+		}
 	case *ssa.Call:
 		g := staticCallee(x)
 		if g == nil || !inRepo(g) || len(g.Blocks) == 0 || g.Signature.Results().Len() != 1 {
@@ -144,11 +155,69 @@ type loopPathResult struct {
 	Appends    int
 	PrefixFrom []string // for each append: field the first string field of the appended struct was loaded from
 	Undecided  string
+	Foreign    string // the outcome differs between the arms of a branch that does not test the attribute's name
 }
 
-// simulateAttrLoop walks one iteration of the loop over the []xml.Attr parameter of fn under the
-// assignment (field -> value; "\x00other" = none of the tested constants).
-func simulateAttrLoop(fn *ssa.Function, assign map[string]string) loopPathResult {
+func (r loopPathResult) key() string {
+	return fmt.Sprintf("%d %v %s", r.Appends, r.PrefixFrom, r.Undecided)
+}
+
+// calleeResultUnder walks a small helper of the repository under the assignment and returns the value it returns at
+// position idx (nil when the walk cannot be decided).
+func calleeResultUnder(g *ssa.Function, idx int, assign map[string]string, depth int) ssa.Value {
+	if depth > 6 || len(g.Blocks) == 0 {
+		return nil
+	}
+	b := g.Blocks[0]
+	var prev *ssa.BasicBlock
+	for steps := 0; steps < 64; steps++ {
+		switch t := b.Instrs[len(b.Instrs)-1].(type) {
+		case *ssa.If:
+			r, ok := evalBoolUnder(t.Cond, assign, prev, depth+1)
+			if !ok {
+				return nil
+			}
+			prev = b
+			if r {
+				b = b.Succs[0]
+			} else {
+				b = b.Succs[1]
+			}
+		case *ssa.Jump:
+			prev = b
+			b = b.Succs[0]
+		case *ssa.Return:
+			if idx >= len(t.Results) {
+				return nil
+			}
+			v := t.Results[idx]
+			for k := 0; k < 4; k++ {
+				phi, ok := v.(*ssa.Phi)
+				if !ok || phi.Block() != b {
+					break
+				}
+				found := false
+				for e, p := range b.Preds {
+					if p == prev {
+						v, found = phi.Edges[e], true
+					}
+				}
+				if !found {
+					return nil
+				}
+			}
+			return v
+		default:
+			return nil
+		}
+	}
+	return nil
+}
+
+// simulateAttrLoop walks one iteration of the loop over the []xml.Attr parameter of fn under the assignment
+// (field -> value; "\x00other" = none of the tested constants) and reports the appends to slices of type target. A
+// branch that cannot be evaluated from the attribute's name is followed both ways: the arms must agree.
+func simulateAttrLoop(fn *ssa.Function, assign map[string]string, target types.Type) loopPathResult {
 	var res loopPathResult
 	// body entry: block containing IndexAddr on the parameter
 	var body *ssa.BasicBlock
@@ -162,82 +231,145 @@ func simulateAttrLoop(fn *ssa.Function, assign map[string]string) loopPathResult
 		return res
 	}
 	header := body.Preds[0]
-	b := body
-	prev := header
-	lastStore := map[int]string{} // struct field index -> source field name (for locals reused across iterations)
-	resolve := func(v ssa.Value, at *ssa.BasicBlock) ssa.Value {
-		for i := 0; i < 4; i++ {
-			phi, ok := v.(*ssa.Phi)
-			if !ok {
-				return v
+	elemKey := ""
+	if sl, ok := target.Underlying().(*types.Slice); ok {
+		elemKey = sl.Elem().String()
+	}
+	type state struct {
+		b, prev   *ssa.BasicBlock
+		lastStore map[string]string
+		phiTaken  map[*ssa.Phi]ssa.Value
+		res       loopPathResult
+		steps     int
+	}
+	var run func(st state, forks int) loopPathResult
+	run = func(st state, forks int) loopPathResult {
+		b, prev := st.b, st.prev
+		res := st.res
+		resolve := func(v ssa.Value, at *ssa.BasicBlock) ssa.Value {
+			for i := 0; i < 4; i++ {
+				phi, ok := v.(*ssa.Phi)
+				if !ok {
+					return v
+				}
+				found := false
+				for j, p := range phi.Block().Preds {
+					if (phi.Block() == at && p == prev) || (phi.Block() != at && len(phi.Block().Preds) == 1) {
+						v, found = phi.Edges[j], true
+						break
+					}
+				}
+				if !found {
+					return v
+				}
 			}
-			found := false
-			for j, p := range phi.Block().Preds {
-				if (phi.Block() == at && p == prev) || (phi.Block() != at && len(phi.Block().Preds) == 1) {
-					v, found = phi.Edges[j], true
+			return v
+		}
+		for steps := st.steps; steps < 64; steps++ {
+			moved := false
+			for _, in := range b.Instrs {
+				switch x := in.(type) {
+				case *ssa.Phi:
+					st.phiTaken[x] = resolve(x, b)
+				case *ssa.Store:
+					if fa, ok := x.Addr.(*ssa.FieldAddr); ok {
+						val := x.Val
+						if phi, isPhi := val.(*ssa.Phi); isPhi {
+							if t, ok := st.phiTaken[phi]; ok {
+								val = t
+							}
+						}
+						// a string handed back by a predicate of the repository: what it returns under the assignment
+						if ex, isEx := val.(*ssa.Extract); isEx {
+							if c, isCall := ex.Tuple.(*ssa.Call); isCall {
+								if g := staticCallee(c); g != nil && inRepo(g) {
+									if rv := calleeResultUnder(g, ex.Index, assign, 0); rv != nil {
+										val = rv
+									}
+								}
+							}
+						}
+						key := ""
+						if pt, ok := fa.X.Type().Underlying().(*types.Pointer); ok {
+							key = pt.Elem().String()
+						}
+						if n := loadedFieldName(val); n != "" {
+							st.lastStore[fmt.Sprintf("%s#%d", key, fa.Field)] = n
+						} else if s, ok := constString(val); ok {
+							st.lastStore[fmt.Sprintf("%s#%d", key, fa.Field)] = "const:" + s
+						}
+					}
+				case *ssa.Call:
+					if bi, ok := x.Call.Value.(*ssa.Builtin); ok && bi.Name() == "append" && types.Identical(x.Type(), target) {
+						res.Appends++
+						res.PrefixFrom = append(res.PrefixFrom, st.lastStore[elemKey+"#0"])
+					}
+				case *ssa.If:
+					truth, ok := evalBoolUnder(x.Cond, assign, prev, 0)
+					if !ok {
+						if forks >= 3 {
+							res.Undecided = "branch on a condition that cannot be evaluated from the attribute-name fields (comparisons with constants, also inside predicates of the repository)"
+							return res
+						}
+						// neither arm may change what becomes of the attribute
+						var outs [2]loopPathResult
+						for k := 0; k < 2; k++ {
+							ls := map[string]string{}
+							for a, v := range st.lastStore {
+								ls[a] = v
+							}
+							pt := map[*ssa.Phi]ssa.Value{}
+							for a, v := range st.phiTaken {
+								pt[a] = v
+							}
+							r2 := res
+							r2.PrefixFrom = append([]string(nil), res.PrefixFrom...)
+							if b.Succs[k] == header {
+								outs[k] = r2
+								continue
+							}
+							outs[k] = run(state{b: b.Succs[k], prev: b, lastStore: ls, phiTaken: pt, res: r2, steps: steps + 1}, forks+1)
+						}
+						if outs[0].Foreign != "" {
+							return outs[0]
+						}
+						if outs[1].Foreign != "" {
+							return outs[1]
+						}
+						if outs[0].key() != outs[1].key() {
+							outs[0].Foreign = fmt.Sprintf("what becomes of the attribute depends on a test of something other than its name (line %d): %d vs %d nodes", fn.Prog.Fset.Position(x.Cond.Pos()).Line, outs[0].Appends, outs[1].Appends)
+						}
+						return outs[0]
+					}
+					prev = b
+					if truth {
+						b = b.Succs[0]
+					} else {
+						b = b.Succs[1]
+					}
+					moved = true
+				case *ssa.Jump:
+					prev = b
+					b = b.Succs[0]
+					moved = true
+				case *ssa.Return:
+					return res
+				}
+				if moved {
 					break
 				}
 			}
-			if !found {
-				return v
+			if !moved {
+				return res
 			}
-		}
-		return v
-	}
-	phiTaken := map[*ssa.Phi]ssa.Value{} // phis of blocks already passed on this path
-	for steps := 0; steps < 64; steps++ {
-		for _, in := range b.Instrs {
-			switch x := in.(type) {
-			case *ssa.Phi:
-				phiTaken[x] = resolve(x, b)
-			case *ssa.Store:
-				if fa, ok := x.Addr.(*ssa.FieldAddr); ok {
-					val := x.Val
-					if phi, isPhi := val.(*ssa.Phi); isPhi {
-						if t, ok := phiTaken[phi]; ok {
-							val = t
-						}
-					}
-					if n := loadedFieldName(val); n != "" {
-						lastStore[fa.Field] = n
-					} else if s, ok := constString(val); ok {
-						lastStore[fa.Field] = "const:" + s
-					}
-				}
-			case *ssa.Call:
-				if bi, ok := x.Call.Value.(*ssa.Builtin); ok && bi.Name() == "append" && types.Identical(x.Type(), fn.Signature.Results().At(0).Type()) {
-					res.Appends++
-					res.PrefixFrom = append(res.PrefixFrom, lastStore[0])
-				}
-			case *ssa.If:
-				truth, ok := evalBoolUnder(x.Cond, assign, prev, 0)
-				if !ok {
-					res.Undecided = "branch on a condition that cannot be evaluated from the attribute-name fields (comparisons with constants, also inside predicates of the repository)"
-					return res
-				}
-				prev = b
-				if truth {
-					b = b.Succs[0]
-				} else {
-					b = b.Succs[1]
-				}
-				goto next
-			case *ssa.Jump:
-				prev = b
-				b = b.Succs[0]
-				goto next
-			case *ssa.Return:
+			if b == header {
 				return res
 			}
 		}
+		res.Undecided = "iteration does not return to the loop header"
 		return res
-	next:
-		if b == header {
-			return res
-		}
 	}
-	res.Undecided = "iteration does not return to the loop header"
-	return res
+	return run(state{b: body, prev: header, lastStore: map[string]string{}, phiTaken: map[*ssa.Phi]ssa.Value{}}, 0)
 }
 
 func checkC09(w *World) {
@@ -255,6 +387,7 @@ func checkC09(w *World) {
 	}
 	// role: builders called from Pull with the element's attribute list
 	var nsBuilder, attrBuilder *ssa.Function
+	var nsT, attrT types.Type
 	var earlyScope []*ssa.Function
 	for g := range staticReach(pull, func(x *ssa.Function) bool { return fnPkgKey(x) == "parser" }) {
 		if fnPkgKey(g) == "parser" {
@@ -274,17 +407,20 @@ func checkC09(w *World) {
 			return
 		}
 		sc := staticCallee(c)
-		if sc == nil || fnPkgKey(sc) != "parser" || sc.Signature.Results().Len() != 1 {
+		if sc == nil || fnPkgKey(sc) != "parser" || len(sc.Params) == 0 {
 			return
 		}
-		sl, ok := sc.Signature.Results().At(0).Type().Underlying().(*types.Slice)
-		if !ok {
-			return
-		}
-		if w.implementsNode(sl.Elem(), "Namespace") {
-			nsBuilder = sc
-		} else if w.implementsNode(sl.Elem(), "Attribute") {
-			attrBuilder = sc
+		// (one function may build both lists in a single pass)
+		for k := 0; k < sc.Signature.Results().Len(); k++ {
+			sl, ok := sc.Signature.Results().At(k).Type().Underlying().(*types.Slice)
+			if !ok {
+				continue
+			}
+			if w.implementsNode(sl.Elem(), "Namespace") {
+				nsBuilder, nsT = sc, sc.Signature.Results().At(k).Type()
+			} else if w.implementsNode(sl.Elem(), "Attribute") {
+				attrBuilder, attrT = sc, sc.Signature.Results().At(k).Type()
+			}
 		}
 	})
 	if nsBuilder == nil || attrBuilder == nil {
@@ -349,8 +485,12 @@ func checkC09(w *World) {
 				parts = append(parts, fmt.Sprintf("%s=%q", f, v))
 			}
 			name := strings.Join(parts, " ")
-			ra := simulateAttrLoop(attrBuilder, as)
-			rn := simulateAttrLoop(nsBuilder, as)
+			ra := simulateAttrLoop(attrBuilder, as, attrT)
+			rn := simulateAttrLoop(nsBuilder, as, nsT)
+			if ra.Foreign != "" || rn.Foreign != "" {
+				w.check(P, "R09.1", "attribute with "+name, nsBuilder.Pos(), false, orElse(ra.Foreign, rn.Foreign)+": an xml.Attr is a namespace declaration or an attribute by its name alone")
+				continue
+			}
 			if ra.Undecided != "" || rn.Undecided != "" {
 				w.undecided(P, "R09.1", "attribute with "+name, nsBuilder.Pos(), ra.Undecided+" "+rn.Undecided)
 				continue
@@ -382,6 +522,22 @@ func checkC09(w *World) {
 					if s, ok := constString(st.Val); ok && s == "http://www.w3.org/XML/1998/namespace" {
 						xmlFirst = true
 					}
+					// a package-level value holding the binding (initialised with the constant)
+					if ld, ok := st.Val.(*ssa.UnOp); ok {
+						if g, ok := ld.X.(*ssa.Global); ok && g.Pkg != nil {
+							if ini := g.Pkg.Func("init"); ini != nil {
+								allInstrs(ini, func(in2 ssa.Instruction) {
+									if s2, ok := in2.(*ssa.Store); ok {
+										if fa, ok := s2.Addr.(*ssa.FieldAddr); ok && fa.X == ssa.Value(g) {
+											if s, ok := constString(s2.Val); ok && s == "http://www.w3.org/XML/1998/namespace" {
+												xmlFirst = true
+											}
+										}
+									}
+								})
+							}
+						}
+					}
 				}
 			}
 		}
@@ -392,7 +548,11 @@ func checkC09(w *World) {
 	// R09.6 values verbatim
 	docRule(P, "R09.6", "F", "values are handed on as the decoder delivered them: every string that the attribute and namespace builders store next to a name is the xml.Attr's Value itself (or a constant), not the result of a call - encoding/xml has already expanded references and normalised line ends; a second normalisation (trimming, whitespace folding) changes values that were written with character references.")
 	if nsBuilder != nil && attrBuilder != nil {
-		for _, b := range []*ssa.Function{nsBuilder, attrBuilder} {
+		r96 := []*ssa.Function{nsBuilder, attrBuilder}
+		if nsBuilder == attrBuilder {
+			r96 = r96[:1]
+		}
+		for _, b := range r96 {
 			n := 0
 			for g := range staticReach(b, func(x *ssa.Function) bool { return fnPkgKey(x) == "parser" }) {
 				if fnPkgKey(g) != "parser" {
@@ -408,7 +568,9 @@ func checkC09(w *World) {
 						return
 					}
 					if _, isAlloc := fa.X.(*ssa.Alloc); !isAlloc {
-						return
+						if _, isElem := fa.X.(*ssa.IndexAddr); !isElem {
+							return
+						}
 					}
 					// which field of the xml.Attr does the stored string come from, and through what
 					viaCall := ""
